@@ -350,6 +350,21 @@ func runTrace(rep *Report, dir, tag string, o optSet, ops []Op) *tracer {
 					if _, pend := t.e.DB.VerifFreelistState(); len(pend) != 0 {
 						t.rep.violation("C10", "monitor", "pending-after-begin-without-readers", fmt.Sprintf("op %d: write transaction began with no reader open, yet %d pages are still pending", i, len(pend)), t.replayObj(i))
 					}
+				} else {
+					// pages released by transactions older than every open reader are reusable now
+					minR := ^uint64(0)
+					for _, r := range t.readers {
+						if r.txid < minR {
+							minR = r.txid
+						}
+					}
+					_, pend := t.e.DB.VerifFreelistState()
+					for _, p := range pend {
+						if p[0] < minR {
+							t.rep.violation("C10", "monitor", "pending-below-oldest-reader", fmt.Sprintf("op %d: page %d released by transaction %d is still pending although the oldest open reader is at %d", i, p[1], p[0], minR), t.replayObj(i))
+							break
+						}
+					}
 				}
 			}
 		case "beginr":
@@ -398,7 +413,7 @@ func runTrace(rep *Report, dir, tag string, o optSet, ops []Op) *tracer {
 					if _, pend := t.e.DB.VerifFreelistState(); len(pend) != t.freedPages {
 						t.rep.violation("C10", "monitor", "pending-not-own-frees", fmt.Sprintf("op %d: commit without readers leaves %d pages pending but the transaction released %d", i, len(pend), t.freedPages), t.replayObj(i))
 					}
-					if st := t.e.DB.Stats(); st.PendingPageN != t.freedPages {
+					if st := t.e.DB.Stats(); !t.o.NoStatistics && st.PendingPageN != t.freedPages {
 						t.rep.violation("C10", "monitor", "stats-pending-mismatch", fmt.Sprintf("op %d: Stats.PendingPageN = %d, released by this commit: %d", i, st.PendingPageN, t.freedPages), t.replayObj(i))
 					}
 				}
@@ -600,6 +615,9 @@ func traceEngine() {
 		if steady {
 			ops = steadyOverwrite(rng, o.PageSize)
 		}
+		if pi%6 == 4 {
+			ops = readerProgram(rng)
+		}
 		if pi%6 == 2 {
 			// a size limit small enough that some commits are rejected (failed transactions
 			// inside spill / commitFreelist), followed by further transactions
@@ -613,6 +631,54 @@ func traceEngine() {
 		checkTrace(rep, t)
 	}
 	rep.finish(start)
+}
+
+// readerProgram: readers opened on successive versions and closed in different orders (oldest
+// first, newest first, random), with and without write transactions in between.
+func readerProgram(rng *rand.Rand) []Op {
+	ops := []Op{{K: "beginw"}, {K: "mkb", Tx: "w", Key: "s"}, {K: "commit"}}
+	tx := func(r int) {
+		ops = append(ops, Op{K: "beginw"})
+		for k := 0; k < 30; k++ {
+			ops = append(ops, Op{K: "put", Tx: "w", Path: []string{"s"}, Key: fmt.Sprintf("key%04d", k), Val: strings.Repeat(string(rune('a'+r%26)), 120)})
+		}
+		ops = append(ops, Op{K: "commit"})
+	}
+	n := 0
+	for round := 0; round < 4; round++ {
+		k := 3 + rng.Intn(3)
+		var ids []string
+		for j := 0; j < k; j++ {
+			tx(n)
+			n++
+			id := fmt.Sprintf("rp%d_%d", round, j)
+			ids = append(ids, id)
+			ops = append(ops, Op{K: "beginr", Tx: id})
+		}
+		order := rng.Perm(k)
+		switch rng.Intn(3) {
+		case 0: // oldest first
+			for j := range order {
+				order[j] = j
+			}
+		case 1: // newest first
+			for j := range order {
+				order[j] = k - 1 - j
+			}
+		}
+		for _, j := range order {
+			ops = append(ops, Op{K: "dump", Tx: ids[j]}, Op{K: "endr", Tx: ids[j]})
+			if rng.Intn(4) == 0 {
+				tx(n)
+				n++
+			}
+		}
+		for j := 0; j < 3; j++ {
+			tx(n)
+			n++
+		}
+	}
+	return ops
 }
 
 // steadyOverwrite: the same keys rewritten by 70 consecutive transactions, no readers.
